@@ -302,19 +302,30 @@ def r6_error_unwinding(ctx, rule="C05.R6"):
                    "argument-collecting state on the context stack" % v)
     # every (not just the innermost) argument-collecting state is dropped: the shrinking call of
     # the routine used on the handler edges sits on a CFG cycle
+    def shrink_call(t, body):
+        return mir.callee_of(t) in shrinking or mir.callee_of(t) in direct or \
+            (mir.callee_path(t).split("::")[-1] in common.VEC_SHRINK and
+             common.receiver_field(mir.Prov(body), t) == "states")
+
+    def iterated(fid, seen=()):
+        """the function (or a routine it calls) pops Context::states on a CFG cycle"""
+        f = prog.fns.get(fid)
+        if f is None or f.body is None or fid in seen:
+            return False
+        for b, t in f.body.calls():
+            if shrink_call(t, f.body):
+                if b in {x for s2 in f.body.succ(b) for x in f.body.reachable(s2)}:
+                    return True
+                if iterated(mir.callee_of(t), seen + (fid,)):
+                    return True
+        return False
+
     for fid in sorted({c for v in ("Address", "Next") for c in
                        [mir.callee_of(t) for _b, t in mir.region_calls(
                            interp.body, mir.arm_region(interp.body, sw.bb, sw.arms.get(v, sw.otherwise)))]
                        if c in shrinking}):
         f = prog.fns[fid]
-        on_cycle = False
-        for b, t in f.body.calls():
-            if mir.callee_of(t) in shrinking or mir.callee_of(t) in direct or \
-                    (mir.callee_path(t).split("::")[-1] in common.VEC_SHRINK and
-                     common.receiver_field(mir.Prov(f.body), t) == "states"):
-                if b in {x for s2 in f.body.succ(b) for x in f.body.reachable(s2)}:
-                    on_cycle = True
-        ctx.decide(on_cycle, rule, "%s:%s:drops-all-argument-states" % (rule, f.name), f.loc,
+        ctx.decide(iterated(fid), rule, "%s:%s:drops-all-argument-states" % (rule, f.name), f.loc,
                    "the drop is iterated until a normal state is on top",
                    "%s drops at most one argument-collecting state (the pop is not in a loop): an error "
                    "inside nested argument evaluation leaves a state behind" % f.name)
